@@ -3,6 +3,7 @@ package c17
 
 import (
 	"fmt"
+	"strconv"
 	"strings"
 	"testing"
 
@@ -17,9 +18,9 @@ func TestMain(m *testing.M) { harness.Main(m, "C17") }
 
 type copyCase struct {
 	Setup  []string `json:"setup"`  // history H: programs run on the original before Copy()
-	Mutate []string `json:"mutate"` // M: run on one side after the copy
-	Chain  int      `json:"chain"`  // how many times the copy is copied again (copies of copies)
-	Side   string   `json:"side"`   // which side M runs on: "copy" or "original"
+	Mutate  []string `json:"mutate"`  // M: run on the copy after Copy()
+	Mutate2 []string `json:"mutate2"` // M2: run on the original after that (both sides change, differently)
+	Chain   int      `json:"chain"`   // how many times the copy is copied again (copies of copies)
 }
 
 const pollBudget = 400_000
@@ -106,9 +107,9 @@ func checkCopy(c copyCase) (out harness.Outcome) {
 			out.Classes = append(out.Classes, "has:"+strings.TrimSpace(f))
 		}
 	}
-	out.Nontrivial = strings.Contains(src, "function") && len(c.Mutate) > 0
+	out.Nontrivial = strings.Contains(src, "function")
 	fail := func(format string, a ...interface{}) harness.Outcome {
-		out.Fail = fmt.Sprintf(format, a...) + "\nsetup:\n" + strings.Join(c.Setup, "\n---\n") + "\nmutate:\n" + strings.Join(c.Mutate, "\n---\n")
+		out.Fail = fmt.Sprintf(format, a...) + "\nsetup:\n" + strings.Join(c.Setup, "\n---\n") + "\nmutate (copy):\n" + strings.Join(c.Mutate, "\n---\n") + "\nmutate (original):\n" + strings.Join(c.Mutate2, "\n---\n")
 		return out
 	}
 
@@ -145,42 +146,52 @@ func checkCopy(c copyCase) (out harness.Outcome) {
 	if d := diff(dump(orig), dOrig0); d != "" {
 		return fail("running scripts on the copy changed the original: %s", d)
 	}
-	// 4. mutation programs on one side, both directions
-	mutated, other, otherName := cp, orig, "original"
-	mutatedRef, otherBefore := replay, dOrig0
-	if c.Side == "original" {
-		// bring the reference to the original's state: a second replay that never ran Exercise
-		ref2, _ := build(c.Setup)
-		mutated, other, otherName = orig, cp, "copy"
-		mutatedRef, otherBefore = ref2, dCopy1
-	}
-	for i, m := range c.Mutate {
-		rm, rr := run(mutated, m), run(mutatedRef, m)
-		if rm != rr {
-			return fail("mutation program %d gives %s on the %s side and %s on the replayed reference", i, rm, c.Side, rr)
+	// 4. both sides are changed, differently: M (+ fresh keys tagged C) on the copy, then M2 (+ keys tagged O) on
+	// the original; each side must equal its own replayed reference after the same programs
+	refOrig, _ := build(c.Setup) // reference for the original: it never ran Exercise
+	progsC := append(append([]string(nil), c.Mutate...), strings.ReplaceAll(heap.AddKeys, "%TAG", "C"))
+	progsO := append(append([]string(nil), c.Mutate2...), strings.ReplaceAll(heap.AddKeys, "%TAG", "O"))
+	for i, m := range progsC {
+		if rm, rr := run(cp, m), run(replay, m); rm != rr {
+			return fail("program %d run on the copy gives %s, on the replayed reference %s", i, rm, rr)
 		}
 	}
-	if d := diff(dump(mutated), dump(mutatedRef)); d != "" {
-		return fail("after the mutation programs the %s side differs from the replayed reference: %s", c.Side, d)
+	for i, m := range progsO {
+		if rm, rr := run(orig, m), run(refOrig, m); rm != rr {
+			return fail("program %d run on the original (after the copy was changed) gives %s, on a replayed reference %s", i, rm, rr)
+		}
 	}
-	if d := diff(dump(other), otherBefore); d != "" {
-		return fail("mutation programs run on the %s side are observable from the %s: %s", c.Side, otherName, d)
+	if d := diff(dump(cp), dump(replay)); d != "" {
+		return fail("after both sides were changed the copy differs from its replayed reference (state shared with the original?): %s", d)
+	}
+	if d := diff(dump(orig), dump(refOrig)); d != "" {
+		return fail("after both sides were changed the original differs from its replayed reference (state shared with the copy?): %s", d)
+	}
+	// 5. and the exported functions still behave the same on each side
+	if eC, eR := run(cp, heap.Exercise), run(replay, heap.Exercise); eC != eR {
+		return fail("after the changes, calling the exported functions on the copy gives %q, on its reference %q", eC, eR)
+	}
+	if eO, eR := run(orig, heap.Exercise), run(refOrig, heap.Exercise); eO != eR {
+		return fail("after the changes, calling the exported functions on the original gives %q, on its reference %q", eO, eR)
 	}
 	return out
 }
 
 var copyFacet = harness.Register(&harness.Facet[copyCase]{
 	Name: "copy-vs-replay",
-	Rule: "rapid: a setup history of 1-4 programs (templates building counters in closures, shared environments, prototype chains, accessors over hidden state, restricted attributes and reordered properties, frozen/sealed objects, bound functions with bound arguments, leaked and aliased arguments objects, functions with own properties, modified built-ins, RegExp lastIndex, Date and Error objects, cycles, wrappers, sparse arrays, eval/Function/with bindings; 30% programs from the semantic generator), 0-3 mutation programs, the side they run on and a copy-of-copy depth 0-2. Oracle: differential against replay — A=New();A.Run(H); C=A.Copy()^n; R=New();R.Run(H): canonical heap dump (every reachable object: class, prototype, extensibility, own properties in order with attributes and values, function source, Date/RegExp/wrapper internals) of C equals R's; calling every exported function gives equal results and equal heaps; the original's dump is unchanged by anything run on the copy; after M on one side that side equals the replayed reference after M and the other side is unchanged. Non-trivial = the history defines a function and there is a mutation program; distinct by case",
-	Quick:    70,
+	Rule: "rapid: a setup history of 1-4 programs (templates building counters in closures, shared environments, prototype chains, accessors over hidden state, restricted attributes and reordered properties, frozen/sealed objects, bound functions with bound arguments, leaked and aliased arguments objects, functions with own properties, modified built-ins, RegExp lastIndex, Date and Error objects, cycles, wrappers, sparse arrays, eval/Function/with bindings; 30% programs from the semantic generator), 0-3 mutation programs for the copy, 0-2 different ones for the original, and a copy-of-copy depth 0-2. Oracle: differential against replay — A=New();A.Run(H); C=A.Copy()^n; R=New();R.Run(H): canonical heap dump (every reachable object: class, prototype, extensibility, own properties in order with attributes and values, function source, Date/RegExp/wrapper internals) of C equals R's; calling every exported function gives equal results and equal heaps; the original's dump is unchanged by anything run on the copy; then BOTH sides are changed differently (mutation programs plus a program adding a differently named fresh key to every global object and function) and each must equal its own replayed reference after the same programs, in dump and in the results of calling the exported functions. Non-trivial = the history defines a function; distinct by case",
+	Quick:    45,
 	Thorough: 500,
 	Gen: func(t *rapid.T) copyCase {
-		c := copyCase{Chain: rapid.IntRange(0, 2).Draw(t, "chain"), Side: rapid.SampledFrom([]string{"copy", "copy", "original"}).Draw(t, "side")}
+		c := copyCase{Chain: rapid.IntRange(0, 2).Draw(t, "chain")}
 		for i, n := 0, rapid.IntRange(1, 4).Draw(t, "nsetup"); i < n; i++ {
 			c.Setup = append(c.Setup, heap.Piece(t, heap.Builders, "builder"))
 		}
 		for i, n := 0, rapid.IntRange(0, 3).Draw(t, "nmut"); i < n; i++ {
 			c.Mutate = append(c.Mutate, heap.Piece(t, heap.Mutators, "mutator"))
+		}
+		for i, n := 0, rapid.IntRange(0, 2).Draw(t, "nmut2"); i < n; i++ {
+			c.Mutate2 = append(c.Mutate2, heap.Piece(t, heap.Mutators, "mutator2"))
 		}
 		return c
 	},
@@ -188,3 +199,26 @@ var copyFacet = harness.Register(&harness.Facet[copyCase]{
 })
 
 func TestCopyVsReplay(t *testing.T) { copyFacet.Run(t) }
+
+// every builder on its own (so that each clone path is exercised in every run, whatever the seed),
+// combined with two mutators and a copy-of-copy depth chosen round-robin
+var eachFacet = harness.Register(&harness.Facet[copyCase]{
+	Name:  "copy-vs-replay-each-builder",
+	Rule:  "complete enumeration of the heap-builder templates (one per clone path: closures, named function expressions, catch/with/arguments scopes, bound functions with object this and arguments, accessors, attributes, frozen objects, modified built-ins, RegExp/Date/Error, cycles, wrappers, grown key lists, deep chains), each alone as the setup history, with two mutators and copy depth 0-2 assigned round-robin; same oracle as copy-vs-replay; every case non-trivial; distinct by builder",
+	Check: checkCopy,
+})
+
+func TestCopyEachBuilder(t *testing.T) {
+	var cases []copyCase
+	for i, b := range heap.Builders {
+		n := strconv.Itoa(i % 10)
+		cases = append(cases, copyCase{
+			Setup:   []string{strings.ReplaceAll(b, "%N", n)},
+			Mutate:  []string{strings.ReplaceAll(heap.Mutators[i%len(heap.Mutators)], "%N", n)},
+			Mutate2: []string{strings.ReplaceAll(heap.Mutators[(i+7)%len(heap.Mutators)], "%N", n)},
+			Chain:   i % 3,
+		})
+	}
+	harness.SetExhaustive(eachFacet.Name)
+	eachFacet.Each(t, cases)
+}
